@@ -116,7 +116,10 @@ func trunc(s string) string {
 }
 
 // Run invokes the CLI with a private TMPDIR/HOME. extraEnv entries are KEY=VALUE.
-func (w *Work) Run(extraEnv []string, args ...string) Result {
+func (w *Work) Run(extraEnv []string, args ...string) Result { return w.RunStdin("", extraEnv, args...) }
+
+// RunStdin is Run with the given text on the command's standard input (e.g. the answer to a prompt).
+func (w *Work) RunStdin(stdin string, extraEnv []string, args ...string) Result {
 	ctx, cancel := context.WithTimeout(context.Background(), 60*time.Second)
 	defer cancel()
 	cmd := exec.CommandContext(ctx, Bin(), args...)
@@ -129,6 +132,9 @@ func (w *Work) Run(extraEnv []string, args ...string) Result {
 	}, extraEnv...)
 	var so, se bytes.Buffer
 	cmd.Stdout, cmd.Stderr = &so, &se
+	if stdin != "" {
+		cmd.Stdin = strings.NewReader(stdin)
+	}
 	err := cmd.Run()
 	res := Result{Stdout: so.String(), Stderr: se.String()}
 	var ee *exec.ExitError
